@@ -165,7 +165,7 @@ def build_input(rng, kind, kind2=None):
     if kind == "long":
         # a long intermediate (several terms) times an ERI with shared indices, like the
         # repository's own factorisation tests; used with rescaled terms (mixed prefactors)
-        name = rng.choice(["t2_2", "t2_2", "t1_2", "p0_2_oo", "p0_2_vv"])
+        name = rng.choice(["t2_2", "t2_2", "t2_2", "t1_2", "p0_2_oo", "p0_2_vv"])
         it = avail[name]
         pool_o, pool_v = list("ijklmn"), list("abcdef")
         rng.shuffle(pool_o)
@@ -176,8 +176,19 @@ def build_input(rng, kind, kind2=None):
         occ = [s_ for s_ in syms if s_.space == "occ"]
         virt = [s_ for s_ in syms if s_.space == "virt"]
         # ERI: shares the occupied (or virtual) indices of the intermediate
-        share = rng.choice(["occ", "virt", "none"])
-        if share == "occ" and len(occ) == 2:
+        share = rng.choice(["occ", "virt", "none", "twin", "twin", "twin"])
+        if share == "twin" and len(occ) == 2 and len(virt) == 2:
+            # two copies of one free tensor contracted with all indices of the intermediate:
+            # the remainder is symmetric only under the joint permutation P_oo P_vv, so that one
+            # term of the expression stands for two terms of the intermediate
+            nm = rng.choice(["c", "Y"])
+            mk = (lambda o_, v_: NonSymmetricTensor("c", (o_, v_))) if nm == "c" else \
+                (lambda o_, v_: Amplitude("Y", (v_,), (o_,)))
+            v = mk(occ[0], virt[0]) * mk(occ[1], virt[1])
+            if rng.random() < 0.5:
+                x_, y_ = _sym(pool_o.pop()), _sym(pool_v.pop())
+                v = v * Amplitude("X", (y_,), (x_,))
+        elif share == "occ" and len(occ) == 2:
             v = AntiSymmetricTensor("V", tuple(occ), (_sym(pool_v.pop()), _sym(pool_v.pop())), 1)
         elif share == "virt" and len(virt) == 2:
             v = AntiSymmetricTensor("V", (_sym(pool_o.pop()), _sym(pool_o.pop())), tuple(virt), 1)
@@ -237,16 +248,20 @@ def run_case(item):
             A = e.sympy
         elif op == "factor":
             ex = e.copy().expand_intermediates(fully_expand=True)
+            if kind == "long" and (rng.random() < 0.6 or "Y" in str(e) or "c_" in str(e)):
+                # merge equivalent terms first (one term of the expression may then stand for
+                # several terms of the intermediate)
+                ex = reduce_expr(e.copy())
             names = rng.choice([None, ["t_amplitude"], ["t2_1"], ["t2_1", "t1_2", "t2_2"],
                                 ["t2_1", "mp_density"], ["t_amplitude", "mp_density"]])
             if kind == "long":
                 names = rng.choice([[tag.split(":")[1]], ["t2_1", tag.split(":")[1]], None])
-            mo = rng.choice([None, 1, 2, 3])
+            mo = rng.choice([None, 1, 2, 3]) if kind != "long" else rng.choice([None, 2, 3])
             if (rng.random() < 0.45 or kind == "long") and len(ex) > 1:
                 # mixed prefactors: rescale one or two terms of the expanded expression, so that
                 # a long intermediate can only be factored by adding compensating terms
                 tl = list(ex.terms)
-                picks = rng.sample(range(len(tl)), min(len(tl), rng.choice([1, 1, 2])))
+                picks = rng.sample(range(len(tl)), min(len(tl), rng.choice([1, 1, 2]) if kind != "long" else 1))
                 new = S.Zero
                 for q, t in enumerate(tl):
                     new += t.sympy * (rng.choice([2, 3, Rational(1, 2), Rational(3, 2), -1]) if q in picks else 1)
